@@ -376,6 +376,7 @@ func TestC13(t *testing.T) {
 			if !okEnc || len(data) > 300 || len(data) == 0 {
 				continue
 			}
+			reuseDst := false
 			decode := func(r io.Reader) string {
 				return guard(func() string {
 					dr := codec.NewDecodingReader(r, uint64(len(data)))
@@ -391,6 +392,11 @@ func TestC13(t *testing.T) {
 						return "OK " + hexBytes(d2)
 					}
 					dst := newFlat(ty)
+					if reuseDst {
+						// a recycled destination that already holds the very bytes the stream
+						// fails to deliver: stale contents must not pass for data that was read
+						dst = flatOf(ty, v)
+					}
 					if err := dst.Deserialize(dr); err != nil {
 						return "ERR"
 					}
@@ -417,6 +423,12 @@ func TestC13(t *testing.T) {
 				out.emit("fail-"+kind, "c13r", []string{kind, ty.Sexp(), hexBytes(data), hx(uint64(p))}, decode(r))
 				r2 := &schedReader{data: append([]byte{}, data[:p]...), failAfter: -1, eofWithData: p%2 == 0}
 				out.emit("short-"+kind, "c13r", []string{kind, ty.Sexp(), hexBytes(data), hx(uint64(p))}, decode(r2))
+				if kind == "flat" {
+					reuseDst = true
+					r3 := &schedReader{data: append([]byte{}, data[:p]...), failAfter: -1, eofWithData: p%2 == 1}
+					out.emit("short-flat-reuse", "c13r", []string{kind, ty.Sexp(), hexBytes(data), hx(uint64(p))}, decode(r3))
+					reuseDst = false
+				}
 			}
 			// the writer fails at every position
 			for p := 0; p <= len(data)+1; p++ {
